@@ -473,6 +473,39 @@ def fam_sdpa_lowering(st, probe):
 
 
 # ------------------------------------------------------------------------------------------------ Attention (packed QKV)
+class DynBounds:
+    """The packed-MatMul + Slice model with end1 / start2 / end2 / start3 turned into graph inputs (int64[1]) and the widths of the
+    three slices DECLARED in the model (value_info [B,S,D]); fixed_feeds gives the run-time bounds (probe merges them into every feed)."""
+
+    def __init__(self, g, p):
+        self.g, self.p = g, p
+        self.feeds_spec = dict(g.feeds_spec)
+        self.fixed_feeds = {}
+
+    def model(self, **kw):
+        import onnx
+        from onnx import TensorProto, helper
+        m = self.g.model(**kw)
+        sl = {n.output[0]: n for n in m.graph.node if n.op_type == "Slice"}
+        q, k, v = sl["q_sliced"], sl["k_sliced"], sl["v_sliced"]
+        db = self.p["dynamic_bounds"]
+        for nm, val in ((q.input[2], db["end1"]), (k.input[1], db["start2"]), (k.input[2], db["end2"]), (v.input[1], db["start3"])):
+            for init in [t for t in m.graph.initializer if t.name == nm]:
+                m.graph.initializer.remove(init)
+            for nd in [n for n in m.graph.node if n.op_type == "Constant" and n.output[0] == nm]:
+                m.graph.node.remove(nd)
+            m.graph.input.append(helper.make_tensor_value_info(nm, TensorProto.INT64, [1]))
+            self.fixed_feeds[nm] = np.array([val], np.int64)
+        D = self.p["H"] * self.p["Dh"]
+        et = TensorProto.FLOAT16 if self.p["dtype"] == "float16" else TensorProto.FLOAT
+        keep = [x for x in m.graph.value_info if x.name not in ("q_sliced", "k_sliced", "v_sliced")]
+        del m.graph.value_info[:]
+        m.graph.value_info.extend(keep)
+        for nm in ("q_sliced", "k_sliced", "v_sliced"):
+            m.graph.value_info.append(helper.make_tensor_value_info(nm, et, [self.p.get("B_decl", self.p["B"]), self.p.get("S_decl", self.p["S"]), D]))
+        return m
+
+
 def fam_attention_rule(st, probe):
     """attention.py at rule level after sdpa / mha / mha_bias: shapes of the projections read from the model."""
     from onnx_ir.passes.common import ShapeInferencePass
@@ -484,6 +517,7 @@ def fam_attention_rule(st, probe):
     ctx, rng = st.ctx, st.ctx.rng
     fam = "attention"
     fired_n = slice_n = 0
+    tile_n = {True: 0, False: 0}
     for i in range(14 if ctx.tier == "quick" else 90):
         B, S, H = rng.randrange(1, 3), rng.randrange(1, 5), rng.randrange(1, 4)
         Dh = pick(rng, [2, 4, 8])
@@ -497,19 +531,40 @@ def fam_attention_rule(st, probe):
             p["B_decl"], p["S_decl"] = "B", "S"
         near = None
         if i % 2 == 1:
-            # the packed-MatMul + Slice variant of the rule (no_slice = False)
+            # the packed-MatMul + Slice variant of the rule (no_slice = False); the spelling of the bounds cycles deterministically
+            # (so that every run has tiling instances, valid near misses and the finding-class witness)
             p["packed"], p["proj_bias"] = True, True
             D_ = H * Dh
-            p["slice_end"] = pick(rng, [3 * D_, 2 ** 63 - 1, 3 * D_ + 5])
-            u = rng.random()
-            if u < 0.12:
-                near, p["slice_bounds"] = "gap", [(0, D_), (D_, 2 * D_), (2 * D_ + 0, 3 * D_ - 1)] if D_ > 1 else None
-                if p["slice_bounds"] is None:
-                    near = None
-                    del p["slice_bounds"]
-            elif u < 0.24:
-                near, p["slice_bounds"] = "start-not-0", [(1, D_ + 1), (D_ + 1, 2 * D_ + 1), (2 * D_ + 1, 2 ** 63 - 1)]
+            BIG = 2 ** 63 - 1
+            kind = ["plain", "negative", "near", "plain", "near", "negative", "dynamic"][(i // 2) % 7]
+            p["slice_end"] = pick(rng, [3 * D_, BIG, 3 * D_ + 5])
+            if kind == "negative":
+                # the same partition spelled with from-the-end bounds: fires, hidden sizes unchanged
+                p["bounds_spelling"], p["slice_bounds"] = "negative", [(0, -2 * D_), (-2 * D_, -D_), (-D_, p["slice_end"])]
+            elif kind == "near":
+                # every near miss is a VALID model (three slices of width D): the rule must leave it alone
+                near = pick(rng, ["mixed-spelling", "not-to-end", "start-not-0", "gap"])
+                if near == "mixed-spelling":      # end1 = D and start2 = -2D denote the same column; check compares the raw values
+                    p["slice_bounds"] = [(0, D_), (-2 * D_, 2 * D_), (2 * D_, p["slice_end"])]
+                elif near == "not-to-end":        # one more projection column than the slices cover
+                    p["pad"], p["slice_bounds"] = 1, [(0, D_), (D_, 2 * D_), (2 * D_, 3 * D_)]
+                elif near == "start-not-0":
+                    p["pad"], p["slice_bounds"] = 1, [(1, D_ + 1), (D_ + 1, 2 * D_ + 1), (2 * D_ + 1, BIG)]
+                else:
+                    p["pad"], p["slice_bounds"] = 1, [(0, D_), (D_, 2 * D_), (2 * D_ + 1, BIG)]
+            elif kind == "dynamic":
+                # finding class: end1 / start2 / end2 / start3 are graph inputs (not constants), the slice widths are declared in
+                # the model; at run time the key window is the query's.  S >= 2: with one token the softmax weight is 1 and the
+                # output does not depend on the key at all
+                p["S"] = S = max(S, 2)
+                p.pop("mask", None)
+                p["slice_end"] = 3 * D_
+                p["dynamic_bounds"] = dict(end1=D_, start2=0, end2=D_, start3=2 * D_)
         g, _ = A.attention_model(p)
+        finding = None
+        if p.get("dynamic_bounds"):
+            g = DynBounds(g, p)
+            finding = "C19:attention:non-constant-slice-bounds-accepted"
         obs = {}
 
         def fn(m, _obs=obs):
@@ -555,8 +610,10 @@ def fam_attention_rule(st, probe):
                                    bias=nd.inputs[2] is not None, mask=len(nd.inputs) > 5 and nd.inputs[5] is not None)
             return cnt
         fired, m2 = probe(st, fam, g, fn, p, expect=None, cls=(fam, p["dtype"], p["proj_bias"], "mask" in p, p["scale"], "B_decl" in p, bool(p.get("packed")), near,
-                                                              p.get("slice_end", 0) >= 2 ** 62),
-                          slack=4.0 if p["dtype"] == "float16" else 2.0, fused_ops=("Attention",))
+                                                              p.get("slice_end", 0) >= 2 ** 62, p.get("bounds_spelling"), finding is not None),
+                          slack=4.0 if p["dtype"] == "float16" else 2.0, fused_ops=("Attention",), finding=finding)
+        if finding is not None and fired is not None:
+            st.flags["att_const_bounds"] = not fired        # the witness of C19_att_check_nonconstant_bounds_refuted decides the variant
         if fired is None or "weights" not in obs:
             continue
         fired_n += bool(fired)
@@ -568,8 +625,17 @@ def fam_attention_rule(st, probe):
             sl = obs.get("slice")
             if sl and obs["has_bias"]:
                 bl = "[" + "; ".join("None" if b_ is None else f"(Some {cz(b_)})" for b_ in sl["bounds"]) + "]"
-                st.add_case("attn", f"CAtt (mk_att_in false {cshape(sl['input'])} {cshape(sl['projected'])} {cshape(sl['weight'])} "
-                                    f"{cshape(sl['qkv'][0])} {cshape(sl['qkv'][1])} {cshape(sl['qkv'][2])} {bl}) {observed}", (fam, p, obs))
+                ai = (f"(mk_att_in false {cshape(sl['input'])} {cshape(sl['projected'])} {cshape(sl['weight'])} "
+                      f"{cshape(sl['qkv'][0])} {cshape(sl['qkv'][1])} {cshape(sl['qkv'][2])} {bl})")
+                if finding is None:
+                    st.add_case("attn", f"CAtt {ai} {observed}", (fam, p, obs))
+                st.add_case("atts", f"CAttV @att_const_bounds@ {ai} {observed}", (fam, p, obs))
+                hid = sl["projected"][2] if sl["projected"] is not None and len(sl["projected"]) == 3 else None
+                if finding is None and all(b_ is not None for b_ in sl["bounds"]) and hid is not None and hid >= 0:
+                    # constant bounds, widths from shape inference: the rule fires iff the slices tile the projection, and then
+                    # emits the ONNX Slice widths (hypotheses of C19_attention_slices_identity)
+                    st.add_case("atts", f"CTile {cz(hid)} {' '.join(cz(b_) for b_ in sl['bounds'])} {cbool(bool(att))} {observed}", (fam, p, obs))
+                    tile_n[bool(att)] += 1
             if att and (att["num_heads"] != H or att["mask"] != ("mask" in p) or not att["bias"]):
                 ctx.tie_broken("correspondence", f"{fam}:rewrite:slice", f"{p}: {att}")
             continue
@@ -579,7 +645,7 @@ def fam_attention_rule(st, probe):
             sc_ok = (att["scale"] is None) == (obs["mha_scale"] is None) and (att["scale"] is None or abs(att["scale"] - obs["mha_scale"]) < 1e-6)
             if att["num_heads"] != H or not sc_ok or att["mask"] != ("mask" in p) or not att["bias"]:
                 ctx.tie_broken("correspondence", f"{fam}:rewrite", f"{p}: {att}, MHA scale {obs['mha_scale']}")
-    ctx.cover(attention_fired=fired_n, attention_slice_variant_fired=slice_n)
+    ctx.cover(attention_fired=fired_n, attention_slice_variant_fired=slice_n, attention_slice_tiling_cases={"tile": tile_n[True], "do_not_tile": tile_n[False]})
     if fired_n < (3 if ctx.tier == "quick" else 25) or slice_n < (2 if ctx.tier == "quick" else 12):
         ctx.tie_broken("harness", "generator-degenerate:attention", f"Attention fused on {fired_n} instances, the packed+Slice variant on {slice_n}")
 
@@ -878,6 +944,10 @@ def fam_cos_sin(st, probe):
             p["B"] = B = 1
         near = finding = None
         u = rng.random()
+        if i % 5 == 2 and i < n_cs:
+            p["dtype"] = "float16"          # a float16 floor that does not depend on the seed (i == 2: a plain instance, must fire)
+            if i == 2:
+                u = 0.95
         if i >= n_cs:
             # always present: the two sides of C19_cs_position_batch_differs_iff -- position_ids [1,S] and [B,S] against a batch of 2
             B = 2
